@@ -101,6 +101,9 @@ META["rule"] += (
 META["rule"] += (
     " " + 'Added after the fifth round: 40 % of the networks carry geographical or hand-set node weights; after every update six queries are asked again with nothing changed in between (same answer, earlier answers unmodified).')
 
+META["rule"] += (
+    " " + 'Added after the sixth round: wheels with 66, 70, 130 (thorough 140, 260) rim nodes (hub and rim betweenness, resistances, admittive degrees); circuits whose values are exact in single precision also from float32 / complex64 input (1e-5).')
+
 RT = 1e-9
 
 
@@ -599,6 +602,96 @@ def structured(ctx, kinds):
 
 
 # --------------------------------------------------------------------------
+# hubs
+# --------------------------------------------------------------------------
+def check_hub(ctx, RN, k, cid):
+    """Wheel with k rim nodes: the hub has more than 64 / 128 neighbours
+    (per-node neighbour lists of fixed size, narrow counters).  Betweenness
+    of the hub and of three rim nodes, a few effective resistances and the
+    admittive degrees against the references."""
+    g = ctx.rng("hub", k)
+    r = ref.wheel(k, float(draw(g, "decade")), float(draw(g, "decade")))
+    n = len(r)
+    ok, net = ctx.call(RN, r.copy(), silence_level=3)
+    if not ok:
+        ctx.violation(f"constructor:raises:{type(net).__name__}",
+                      {"case": cid, "exc": repr(net)}, cid)
+        return
+    case = {"case": cid, "n": n}
+    ctx.count("hub_cases")
+    bv, _ = ref.float32_input_bounds(r)
+    hub = int(np.argmax((r != 0).sum(axis=1)))
+    probe = [hub] + [int(v) for v in g.permutation(n)[:3]]
+    V = ref.vertex_current_flow_betweenness_nodes(r, probe)
+    for i in probe:
+        ok, lv = ctx.call(net.vertex_current_flow_betweenness, i)
+        ctx.evals()
+        tv = bv[i] + 1e-9 * abs(V[i]) + 1e-15
+        ctx.nontrivial(("hub", k, i))
+        if not ok:
+            ctx.violation("vertex_current_flow_betweenness:raises:"
+                          f"{type(lv).__name__}", {**case, "exc": repr(lv)},
+                          cid)
+        elif abs(lv - V[i]) > tv:
+            ctx.violation("vertex_current_flow_betweenness:differs:hub-"
+                          "network", {**case, "node": i, "degree": int(
+                              (r[i] != 0).sum()), "lib": lv, "ref": V[i]},
+                          cid)
+    ER = ref.effective_resistance_matrix(r)
+    for a, b in [(hub, (hub + 1) % n), (1, n - 1), (2, n // 2)]:
+        if a == b:
+            continue
+        ok, v = ctx.call(net.effective_resistance, a, b)
+        ctx.evals()
+        if not ok or abs(v - ER[a, b]) > 1e-6 * abs(ER[a, b]):
+            ctx.violation("effective_resistance:differs:hub-network",
+                          {**case, "pair": [a, b], "lib": repr(v),
+                           "ref": ER[a, b]}, cid)
+    ok, ad = ctx.call(net.admittive_degree)
+    ctx.evals()
+    if not ok or not close(ad, ref.admittive_degree(r), 1e-10, 1e-300):
+        ctx.violation("admittive_degree:differs:hub-network", case, cid)
+
+
+def check_single_precision(ctx, RN, r, cid):
+    """The same circuit with its resistances held in single precision (the
+    values are exactly representable): 1/r is then evaluated in single
+    precision, so the results agree with the references to ~1e-7; compared
+    at 1e-5."""
+    cplx = np.iscomplexobj(r)
+    r32 = r.astype(np.complex64 if cplx else np.float32)
+    if not np.array_equal(r32.astype(complex if cplx else float), r):
+        return
+    n = len(r)
+    ok, net = ctx.call(RN, r32, silence_level=3)
+    ctx.count("single_precision_cases")
+    case = {"case": cid, "n": n, "resistances": r}
+    if not ok:
+        ctx.violation(f"constructor:raises:{type(net).__name__}:float32",
+                      {**case, "exc": repr(net)}, cid)
+        return
+    ER = ref.effective_resistance_matrix(r)
+    got = er_matrix(net, n)
+    ctx.evals(n * n)
+    ctx.nontrivial(("f32", cid))
+    if not close(got, ER, 1e-5, 1e-9 * np.abs(ER).max()):
+        ctx.violation("effective_resistance:differs:float32-input",
+                      {**case, "lib": got, "ref": ER}, cid)
+        return
+    for name, fn, want in (
+            ("admittive_degree", net.admittive_degree,
+             ref.admittive_degree(r)),
+            ("average_effective_resistance",
+             net.average_effective_resistance,
+             ref.average_effective_resistance(ER))):
+        ok, v = ctx.call(fn)
+        ctx.evals()
+        if not ok or not close(v, want, 1e-5):
+            ctx.violation(f"{name}:differs:float32-input",
+                          {**case, "lib": repr(v), "ref": want}, cid)
+
+
+# --------------------------------------------------------------------------
 # update histories
 # --------------------------------------------------------------------------
 def queries(n, cplx):
@@ -905,6 +998,15 @@ def run(ctx):
             check_network(ctx, RN, r, cid, closed, rel,
                           via_grid=(idx % 5 == 0))
             ctx.count("structured_cases")
+            if idx % 3 == 1 and len(r) <= 12:
+                check_single_precision(ctx, RN, np.asarray(r), cid)
+
+    for j, k_ in enumerate((66, 70, 130) + ((140, 260) if ctx.thorough
+                                            else ())):
+        cid = f"hub:wheel{k_}"
+        if ctx.mine(j) and ctx.want(cid):
+            with ctx.guard(300):
+                check_hub(ctx, RN, k_, cid)
 
     nmax = 30 if ctx.thorough else 12
     cap_rnd = 14000 if ctx.thorough else 480
